@@ -211,7 +211,7 @@ func playWs(h http.Handler, s *wsSession, only int) (res []wsEvResult, tail []ws
 			nfence++
 			fid := fmt.Sprintf("%s%d", wsFencePrefix, nfence)
 			cl.sendRaw(v.start, fid, `{"query":"{ k }"}`)
-			fr = append(fr, cl.await(func(f wsFrame) bool { return f.typ == "complete" && f.id == fid })...)
+			fr = append(fr, cl.await(func(f wsFrame) bool { return (f.typ == "complete" || f.typ == "error") && f.id == fid })...)
 		}
 		return fr
 	}
@@ -261,10 +261,13 @@ func playWs(h http.Handler, s *wsSession, only int) (res []wsEvResult, tail []ws
 			cl.sendRaw("pong", "", "")
 		}
 		res = append(res, r)
+		if n := len(r.frames); n > 0 && (r.frames[n-1].typ == "TIMEOUT" || r.frames[n-1].typ == "CLOSED") {
+			break // the session is off its script: what was seen so far is reported, nothing else is waited for
+		}
 	}
 	// whatever is still on its way arrives before the sentinel operation's completion
 	cl.sendRaw(v.start, wsSentinel, `{"query":"{ k }"}`)
-	tail = cl.await(func(f wsFrame) bool { return f.typ == "complete" && f.id == wsSentinel })
+	tail = cl.await(func(f wsFrame) bool { return (f.typ == "complete" || f.typ == "error") && f.id == wsSentinel })
 	return res, tail, nil
 }
 
